@@ -9,11 +9,13 @@ import (
 	"math/rand"
 	"net/http"
 	"net/http/httptest"
+	"path/filepath"
 	"runtime"
 	"sort"
 	"strings"
 	"sync"
 
+	"github.com/brutella/hc"
 	"github.com/brutella/hc/accessory"
 	"github.com/brutella/hc/characteristic"
 	hchttp "github.com/brutella/hc/hap/http"
@@ -462,7 +464,8 @@ func genIDPlan(r *rand.Rand, maxAcc int) idPlan {
 			}
 		case 3:
 			if r.Intn(2) == 0 {
-				ap.ID = uint64(1)<<40 + uint64(r.Intn(3))
+				// large ids, up to the top of the uint64 range (an id derived from a hash; "the bridge gets the last id")
+				ap.ID = []uint64{1 << 40, 1 << 40, 1<<53 + 1, 1 << 63, ^uint64(0) - 2}[r.Intn(5)] + uint64(r.Intn(3))
 			}
 		}
 		ne := 0
@@ -506,6 +509,7 @@ func checkC14(c *Ctx) {
 	c.Assume("uint64 wrap-around of id counters (2^64 assignments) is not modelled")
 
 	c14Renumber(c)
+	c14Transport(c)
 	c14ConcurrentJSON(c)
 	// ---------------- corpus: explicit id then automatic id (recorded behaviour: the automatic one is rejected)
 	corpus := []idPlan{
@@ -905,4 +909,69 @@ func max(a, b int) int {
 		return a
 	}
 	return b
+}
+
+// c14Transport (direct oracle): the ids that hc.NewIPTransport gives the accessories it is built from are those a
+// container gives them when they are added in argument order — so the same application code gets the same ids after
+// every restart. (The composition streams above drive accessory.Container directly; this is the constructor an
+// application calls.)
+func c14Transport(c *Ctx) {
+	ctors := []func(accessory.Info) *accessory.Accessory{
+		func(i accessory.Info) *accessory.Accessory { return accessory.NewSwitch(i).Accessory },
+		func(i accessory.Info) *accessory.Accessory { return accessory.NewLightbulb(i).Accessory },
+		func(i accessory.Info) *accessory.Accessory { return accessory.NewOutlet(i).Accessory },
+		func(i accessory.Info) *accessory.Accessory { return accessory.NewBridge(i).Accessory },
+	}
+	for i := 0; i < c.Pick(6, 60); i++ {
+		id := c.CaseID("transport-ids", i)
+		if c.Skip(id) {
+			continue
+		}
+		r := c.CaseRng("transport-ids", i)
+		n := 3 + r.Intn(8)
+		kinds := make([]int, n)
+		explicit := make([]uint64, n)
+		for k := range kinds {
+			kinds[k] = r.Intn(3)
+			if r.Intn(6) == 0 {
+				explicit[k] = uint64(20 + k)
+			}
+		}
+		build := func() []*accessory.Accessory {
+			out := []*accessory.Accessory{ctors[3](accessory.Info{Name: "Bridge"})}
+			for k := range kinds {
+				out = append(out, ctors[kinds[k]](accessory.Info{Name: fmt.Sprint("A", k), ID: explicit[k]}))
+			}
+			return out
+		}
+		ids := func(as []*accessory.Accessory) string {
+			var l []string
+			for _, a := range as {
+				l = append(l, fmt.Sprint(a.ID))
+			}
+			return strings.Join(l, ",")
+		}
+		ref := build()
+		cont := accessory.NewContainer()
+		for _, a := range ref {
+			cont.AddAccessory(a)
+		}
+		in := map[string]interface{}{"bridged_accessories": n, "explicit_ids": explicit}
+		for run := 0; run < 2; run++ {
+			as := build()
+			var terr error
+			msg, pan := safely(func() {
+				_, terr = hc.NewIPTransport(hc.Config{StoragePath: filepath.Join(c.ScratchDir(), fmt.Sprint("t", i))}, as[0], as[1:]...)
+			})
+			if pan || terr != nil {
+				c.Violate("NewIPTransport fails for a bridge of library accessories", id, in, "a transport", fmt.Sprint(msg, terr))
+				break
+			}
+			if got := ids(as); got != ids(ref) {
+				c.Violate("the accessory ids NewIPTransport assigns do not follow the order of its arguments", id, in, ids(ref)+" (a container filled in argument order)", fmt.Sprintf("%s (start %d)", got, run+1))
+				break
+			}
+		}
+		c.Count(fmt.Sprint(id, kinds, explicit), true, "stream:transport-ids")
+	}
 }
